@@ -7,6 +7,7 @@ import (
 	"errors"
 	"log/slog"
 	"net"
+	"sync"
 
 	"github.com/quic-go/quic-go"
 
@@ -35,6 +36,7 @@ type Fetcher struct {
 		LocalAddr  udp.UDPAddr
 		RemoteAddr udp.UDPAddr
 	}
+	mu   sync.Mutex
 	data Data
 }
 
@@ -111,6 +113,8 @@ func (f *Fetcher) exchangeKeys(ctx context.Context) error {
 
 // FetchData returns either cached data or requests new Data by performing a NTS key exchange.
 func (f *Fetcher) FetchData(ctx context.Context) (Data, error) {
+	f.mu.Lock()
+	defer f.mu.Unlock()
 	if len(f.data.Cookie) == 0 {
 		err := f.exchangeKeys(ctx)
 		if err != nil {
@@ -125,6 +129,8 @@ func (f *Fetcher) FetchData(ctx context.Context) (Data, error) {
 
 // StoreCookie stores a cookie byte slice and appends it to the cached data.
 func (f *Fetcher) StoreCookie(cookie []byte) {
+	f.mu.Lock()
+	defer f.mu.Unlock()
 	if len(cookie) > MaxCookieLen {
 		return
 	}
